@@ -31,13 +31,23 @@
 (* "ehcatchesargs" (seeded shape: an error_handler swallows argument       *)
 (* errors), "enumdefault" (pinned tree, known finding: the default handed to        *)
 (* graphql-core for an Enum-typed argument / input field is the serialized *)
-(* VALUE, which reaches the resolver as a raw string).                     *)
+(* VALUE, which reaches the resolver as a raw string), "idliteralraw"       *)
+(* (pinned tree, repaired: under id_encoding an ID given as a LITERAL in   *)
+(* the query is not decoded, only IDs given through variables are).        *)
+(*                                                                         *)
+(* ID types: TId is apischema.graphql.ID, TUid a NewType over str listed   *)
+(* in id_types: both are the GraphQL scalar ID.  IdEnc says whether the     *)
+(* schema was built with id_encoding = (IdDecode, IdEncode): output IDs    *)
+(* are encoded AFTER serialization, input IDs decoded BEFORE               *)
+(* deserialization, whatever channel (literal / variable) carries them.    *)
 (***************************************************************************)
 EXTENDS Values
 
-CONSTANTS Deviations
+CONSTANTS Deviations,
+          IdEnc       \* the schema is built with id_encoding
 
 TInt == [k |-> "int"]   TStr == [k |-> "str"]   TBool == [k |-> "bool"]  TId == [k |-> "id"]
+TUid == [k |-> "uid"]
 TScore == [k |-> "score"]  TCInt == [k |-> "cint"]  TLit == [k |-> "lit"]
 TList(e) == [k |-> "list", e |-> e]
 TOpt(e)  == [k |-> "opt", e |-> e]
@@ -65,7 +75,7 @@ Ty(T, io) ==
   CASE T.k \in {"int", "cint"} -> [s |-> "Int", nn |-> TRUE]
     [] T.k = "str"   -> [s |-> "String", nn |-> TRUE]
     [] T.k = "bool"  -> [s |-> "Boolean", nn |-> TRUE]
-    [] T.k = "id"    -> [s |-> "ID", nn |-> TRUE]
+    [] T.k \in {"id", "uid"} -> [s |-> "ID", nn |-> TRUE]
     [] T.k = "score" -> [s |-> "Score", nn |-> TRUE]
     [] T.k = "lit"   -> [s |-> "Lit", nn |-> TRUE]
     [] T.k = "enum"  -> [s |-> T.n, nn |-> TRUE]
@@ -122,6 +132,16 @@ ImplementsClosed(M, n) ==
   \A i \in InterfacesM(M, n) : InterfacesM(M, i) \subseteq InterfacesM(M, n)
 
 ---------------------------------------------------------------------------
+\* ID encoding: IdEncode(s) = "i:" \o s; IdDecode is its inverse on the pool of plain identifiers and
+\* RAISES on anything else (the harness's decoder raises ValueError on a string without the prefix)
+IdPlain == {"abc", "x1", "1", "2", "3", "4", "u7"}
+IdEncode(s) == "i:" \o s
+IdCoded == {IdEncode(s) : s \in IdPlain}
+IdDecode(e) == CHOOSE s \in IdPlain : IdEncode(s) = e
+BadId == [k |-> "bad"]           \* a literal whose ID could not be decoded: never reaches deserialize
+IsIdType(T) == T.k \in {"id", "uid"}
+
+---------------------------------------------------------------------------
 \* 2. EXECUTION: selecting every field
 
 RECURSIVE GSer(_, _, _)
@@ -141,6 +161,7 @@ GSer(M, T, v) ==
     \* of (as serialize(T, v) does); behind an interface or a union the runtime class decides
     [] T.k = "obj"  -> IF M.ct[T.n].kind = "interface" THEN GSerObj(M, v.cls, v) ELSE GSerObj(M, T.n, v)
     [] T.k = "uni"  -> GSerObj(M, v.cls, v)
+    [] IsIdType(T)  -> IF IdEnc THEN DStr(IdEncode(v.s)) ELSE v
     [] OTHER -> v
 
 ---------------------------------------------------------------------------
@@ -167,7 +188,7 @@ ADeser(M, T, d) ==
     [] T.k = "score" -> IF d.k = "int" THEN ArgOk(d) ELSE ArgErr
     [] T.k = "cint"  -> IF d.k = "int" /\ d.n >= 0 THEN ArgOk(d) ELSE ArgErr      \* schema(min=0): apischema's own validation
     [] T.k = "str"   -> IF d.k = "str" THEN ArgOk(d) ELSE ArgErr
-    [] T.k = "id"    -> IF d.k = "str" THEN ArgOk(d) ELSE ArgErr
+    [] IsIdType(T)   -> IF d.k = "str" THEN ArgOk(d) ELSE ArgErr
     [] T.k = "bool"  -> IF d.k = "bool" THEN ArgOk(d) ELSE ArgErr
     [] T.k = "enum"  -> IF d.k = "ename" /\ d.m \in M.enums[T.n] THEN ArgOk(VEnum(T.n, d.m)) ELSE ArgErr
     [] T.k = "lit"   -> IF d.k = "ename" /\ d.m \in {"x", "y"} THEN ArgOk(DStr(d.m)) ELSE ArgErr
@@ -178,6 +199,26 @@ ADeser(M, T, d) ==
                              IF \E i \in DOMAIN rs : rs[i].kind = "error" THEN ArgErr
                              ELSE ArgOk(VList([i \in DOMAIN rs |-> rs[i].v]))
     [] T.k = "obj"   -> ADeserObj(M, T.n, d)
+
+\* ID decoding of a supplied datum, along the type: what graphql-core's scalar ID does to every ID
+\* position (parse_literal for literals, parse_value for variables) BEFORE apischema sees the datum
+RECURSIVE DecodeIds(_, _, _)
+DecodeIds(M, T, d) ==
+  CASE IsIdType(T) -> IF d.k = "str" /\ IdEnc THEN (IF d.s \in IdCoded THEN DStr(IdDecode(d.s)) ELSE BadId) ELSE d
+    [] T.k \in {"opt", "und"} -> IF d.k = "null" THEN d ELSE DecodeIds(M, T.e, d)
+    [] T.k = "list" -> IF d.k # "arr" THEN d
+                       ELSE LET xs == [i \in DOMAIN d.a |-> DecodeIds(M, T.e, d.a[i])] IN
+                            IF \E i \in DOMAIN xs : xs[i] = BadId THEN BadId ELSE DArr(xs)
+    [] T.k = "obj"  -> IF d.k # "obj" THEN d
+                       ELSE LET fs == AllFields(M, T.n)
+                                ft(key) == IF \E i \in DOMAIN fs : FName(fs[i]) = key
+                                           THEN fs[CHOOSE i \in DOMAIN fs : FName(fs[i]) = key].t ELSE TInt
+                                xs == [i \in DOMAIN d.o |-> <<d.o[i][1], DecodeIds(M, ft(d.o[i][1]), d.o[i][2])>>] IN
+                            IF \E i \in DOMAIN xs : xs[i][2] = BadId THEN BadId ELSE DObj(xs)
+    [] OTHER -> d
+\* Layer M: the scalar built by graphql_schema.  ch \in {"lit", "var"}: the channel carrying the datum
+ParsedM(M, T, d, ch) ==
+  IF "idliteralraw" \in Deviations /\ ch = "lit" THEN d ELSE DecodeIds(M, T, d)
 
 \* what the resolver receives for its parameter: a value, the Python default, or nothing at all
 PyDefault == [kind |-> "default", v |-> DNull]
@@ -193,14 +234,14 @@ ArgR(M, p, sup) ==
        THEN IF IsOptional(p.t) THEN ArgOk(DNull)
             ELSE IF p.def.k \in {"undef", "unser", "null"} THEN PyDefault   \* nullable only because the default cannot be shown
             ELSE ArgErr                                                    \* non-null in the schema: graphql-core rejects the query
-       ELSE ADeser(M, p.t, sup.d)
+       ELSE LET dd == DecodeIds(M, p.t, sup.d) IN IF dd = BadId THEN ArgErr ELSE ADeser(M, p.t, dd)
 
 \* Layer M: graphql-core builds kwargs (argument given, or default_value injected), then resolve().
 \* p.pos = "afterinfo": the parameter follows a GraphQLResolveInfo parameter in the signature; the
 \* pinned tree stopped publishing arguments there (deviation "infobreak", repaired)
 RECURSIVE HasEnum(_)
 HasEnum(T) == CASE T.k = "enum" -> TRUE [] T.k \in {"opt", "und", "list"} -> HasEnum(T.e) [] OTHER -> FALSE
-ArgM(M, p, sup) ==
+ArgM(M, p, sup, ch) ==
   LET nullableInSchema == IsNullable(p.t) \/ p.def.k \in {"null", "undef", "unser"}
       optParam == IsOptional(p.t) \/ p.def.k = "null"
       required == p.def.k = "req"
@@ -215,7 +256,8 @@ ArgM(M, p, sup) ==
           THEN IF value.k = "null" /\ (IF "nullskips" \in Deviations THEN ~required ELSE ~optParam) THEN PyDefault
                ELSE IF value.k = "injected"
                     THEN IF "enumdefault" \in Deviations /\ HasEnum(p.t) THEN [kind |-> "raw", v |-> DNull] ELSE PyDefault
-                    ELSE LET r == ADeser(M, p.t, value) IN
+                    ELSE LET pv == ParsedM(M, p.t, value, ch)
+                             r == IF pv = BadId THEN ArgErr ELSE ADeser(M, p.t, pv) IN
                          \* deviation "ehcatchesargs" (seeded shape): the handler swallows the argument error
                          IF r.kind = "error" /\ "ehcatchesargs" \in Deviations /\ p.eh # "unset"
                          THEN [kind |-> "handled", v |-> DNull] ELSE r
